@@ -24,6 +24,13 @@ def make_cases(rng, tier):
     add([("A", None, 9, block([assign(("var", "x"), "=", ("math", mint(1)))], ret(emath(x())))), ("B", None, 5, block([], ret(emath(x()))))], [])
     add([("A", None, 9, block([assign(("var", "x"), "=", ("math", mint(1)))])), ("B", None, 5, block([assign(("var", "y"), "=", ("math", mk_mbin("+", x(), mint(1))))], ret(emath(mvar("y"))))),
          ("C", None, 1, block([assign(("var", "x"), "=", ("math", matom(const(kstr("s")))))], ret(emath(x()))))], [])
+    # a rule that assigns a local and then panics (non-boolean condition / ! on a number): the next rule, and the next call, must not see it
+    for bad in (emath(mvar("token")), eatom(True, var("token"))):
+        import copy
+        add([("A", None, 9, block([assign(("var", "token"), "=", ("math", mint(42))), sif(copy.deepcopy(bad), block([]))])),
+             ("B", None, 5, block([], ret(emath(mvar("token")))))], [], twice=True)
+        add([("A", None, 9, block([assign(("var", "token"), "=", ("math", mint(42)))], ret(copy.deepcopy(bad)))),
+             ("B", None, 5, block([assign(("var", "y"), "=", ("math", mk_mbin("+", mvar("token"), mint(1))))], ret(emath(mvar("y")))))], [], twice=True)
     # the same name with different types in different rules
     add([("A", None, 9, block([assign(("var", "x"), "=", ("math", mint(7)))], ret(emath(x())))), ("B", None, 5, block([assign(("var", "x"), "=", ("math", matom(const(kstr("str")))))], ret(emath(x())))),
          ("C", None, 1, block([assign(("var", "x"), "=", ("math", matom(const(kbool(True)))))], ret(emath(x()))))], [])
